@@ -41,7 +41,9 @@ def build(tree, S, protos):
         return OnlineEnsembleForecaster([("m%d" % i, f) for i, f in enumerate(kids)],
                                         ensemble_algorithm=stubs.C09WeightAlgorithm(len(kids)))
     if k == "stack":
-        return StackingForecaster([("m%d" % i, f) for i, f in enumerate(kids)], final_regressor=Meta(tag="c09meta"))
+        meta = Meta(tag="c09meta")        # the caller's regressor object is a prototype too: the stacker trains a copy
+        protos.append(meta)
+        return StackingForecaster([("m%d" % i, f) for i, f in enumerate(kids)], final_regressor=meta)
     raise AssertionError(k)
 
 
@@ -78,7 +80,7 @@ def observe(cfg, variant=0):
         events = norm_events(stubs.LOG[TAG])
         ret = [rational(float(v)) or [] for v in p.values]
         o = {"events": events, "ret": ret, "index": [int(i) - stubs.C09_ORIGIN[0] for i in p.index],
-             "protos_unfitted": all(not getattr(x, "_is_fitted", False) for x in protos)}
+             "protos_unfitted": all(not getattr(x, "_is_fitted", False) and not hasattr(x, "n_outputs_") for x in protos)}
         # independence: a second composite built from the SAME prototype objects, fitted on other data,
         # must not disturb the first one
         saved = list(stubs.LOG[TAG])
@@ -115,7 +117,9 @@ def build_shared(tree, S, protos):
 
     def tag_factory(k=1):
         return next(it)
-    return build(tree, (leaf_factory, tag_factory, tag_factory, Meta, tag_factory), [])
+    def meta_factory(tag=None):
+        return next(it)
+    return build(tree, (leaf_factory, tag_factory, tag_factory, meta_factory, tag_factory), [])
 
 
 def run(ctx):
